@@ -183,6 +183,34 @@ fn dir_ask(i: usize) -> Option<Ask> {
     })
 }
 
+/// (round 17) the bare right-to-left-listed languages with the direction their likely script has:
+/// a script-less, region-less identifier goes through the likely-subtags lookup too, and two
+/// *different* languages with the same (absent) region and opposite directions are what a cache
+/// keyed too narrowly confuses (seeded m67: `ar` answered with `pa`'s direction)
+fn bare_rtl_langs() -> &'static Vec<(String, String)> {
+    static ROWS: std::sync::OnceLock<Vec<(String, String)>> = std::sync::OnceLock::new();
+    ROWS.get_or_init(|| {
+        let mut v = vec![];
+        for l in lib::verif_tables::LANGS_CHARACTER_DIRECTION_RTL.iter() {
+            let Ok(i) = ls::LANG_ONLY.binary_search_by_key(l, |r| r.0) else { continue };
+            let Some(lt) = lang_text(*l) else { continue };
+            let Some(st) = ls::LANG_ONLY[i].1 .1.and_then(script_text) else { continue };
+            let expect = if script_direction(&st) == Some("LTR") { "LTR" } else { "RTL" };
+            v.push((lt, expect.to_string()));
+        }
+        v
+    })
+}
+
+fn bare_dir_ask(lt: &str, expect: &str) -> Option<Ask> {
+    let lang = Language::from_bytes(lt.as_bytes()).ok()?;
+    Some(Ask::Dir {
+        label: format!("direction of {}", lt),
+        li: lib::LanguageIdentifier::from_parts(lang, None, None, &[]),
+        expect: expect.to_string(),
+    })
+}
+
 /// The workload of one run: what each caller thread asks for, in order.
 #[derive(Clone, Debug)]
 pub struct Workload {
@@ -251,6 +279,24 @@ pub fn workload(wseed: u64) -> Workload {
         }
         for i in chosen {
             if let Some(a) = dir_ask(i) {
+                hot.push(a);
+            }
+        }
+    }
+    // (round 17) two or three bare right-to-left-listed languages, of both directions if possible
+    let bare = bare_rtl_langs();
+    if bare.len() > 1 && r.below(2) > 0 {
+        let start = r.below(bare.len() as u64) as usize;
+        let first = &bare[start];
+        let mut picked = vec![first];
+        if let Some(other) = (1..bare.len()).map(|d| &bare[(start + d) % bare.len()]).find(|b| b.1 != first.1) {
+            picked.push(other);
+        }
+        if r.below(2) > 0 {
+            picked.push(&bare[(start + 1) % bare.len()]);
+        }
+        for (lt, expect) in picked {
+            if let Some(a) = bare_dir_ask(lt, expect) {
                 hot.push(a);
             }
         }
